@@ -265,7 +265,8 @@ def final_runs(final):
             cur.update(rec)
         if cur:
             runs.append(cur)
-    return runs
+    # a run that was still going on in another thread when the load gave up is incomplete: not judged
+    return [r for r in runs if all(f"m{m}.fixed" in r for m in range(len(GROUPS)))]
 
 
 def collect(p, problem, log, dt, final=None, load_err=None):
